@@ -42,6 +42,8 @@ type Env struct {
 	Ref     *rm.State
 	Out     *harness.Outcome
 	Hung    bool // a call never returned: goroutines are left behind on purpose
+	Truncated bool  // the last ListUsers call ran into its deadline
+	SigExtra string // appended to violation signatures by the judges (context of the current call)
 	cleanup []func()
 }
 
@@ -250,7 +252,7 @@ func (e *Env) JudgeCheck(who string, rq gen.Request, st *rm.State, allowed bool,
 			simrt.Probe("error_under_fault")
 			return
 		}
-		e.Violate("unexpected_error", "err="+errSig(err), "%s: error %v without an injected fault (%s)", desc, err, ref)
+		e.Violate("unexpected_error:"+errKind(err), "err="+errSig(err), "%s: error %v without an injected fault (%s)", desc, err, ref)
 		return
 	default:
 		// condition / validation / other errors
@@ -261,7 +263,7 @@ func (e *Env) JudgeCheck(who string, rq gen.Request, st *rm.State, allowed bool,
 		if faulty {
 			return
 		}
-		e.Violate("unexpected_error", "err="+errSig(err), "%s: error %v (%s)", desc, err, ref)
+		e.Violate("unexpected_error:"+errKind(err), "err="+errSig(err), "%s: error %v (%s)", desc, err, ref)
 		return
 	}
 	sig := shapeSig(e.Sc.Model, rq)
@@ -304,10 +306,41 @@ func (e *Env) JudgeCheck(who string, rq gen.Request, st *rm.State, allowed bool,
 	}
 }
 
+// errKind is a coarse, stable classification used in violation classes (so that minimisation
+// cannot drift from, say, an internal error to a validation error).
+func errKind(err error) string {
+	switch Classify(err) {
+	case ErrValidation:
+		return "validation"
+	case ErrCondition:
+		return "condition"
+	case ErrCancelled, ErrDeadline:
+		return "cancelled"
+	case ErrInjected:
+		return "injected"
+	case ErrPanicCaptured:
+		return "panic"
+	case ErrDepth:
+		return "depth"
+	}
+	if c := uint32(status.Code(err)); c >= 2000 && c < 3000 {
+		return "validation"
+	}
+	return "internal"
+}
+
 func errSig(err error) string {
 	s := err.Error()
 	if len(s) > 60 {
 		s = s[:60]
+	}
+	// public errors hide their cause; the unwrapped chain is the useful part
+	for inner := errors.Unwrap(err); inner != nil; inner = errors.Unwrap(inner) {
+		is := inner.Error()
+		if len(is) > 120 {
+			is = is[:120]
+		}
+		s += " <- " + is
 	}
 	return s
 }
